@@ -219,7 +219,10 @@ impl<T> Signal<T> {
 
     /// Returns true if signal is terminated
     pub(crate) fn is_terminated(&self) -> bool {
-        self.state.load(Ordering::Relaxed) == TERMINATED
+        // Acquire: when this is the load that observes TERMINATED, the caller
+        // returns and its stack frame (which holds the signal) goes away, so
+        // the terminating peer's accesses to the signal must happen before it
+        self.state.load(Ordering::Acquire) == TERMINATED
     }
 
     /// Reads kanal ptr and returns its value
